@@ -7,6 +7,7 @@ import GModel.Ops6
 import GModel.Ops7
 import GModel.Ops8
 import GModel.Ops9
+import GModel.Ops10
 namespace G
 /-- run one protocol line -/
 def runLine (tables : List (List (String × Rd String))) (line : String) : String :=
@@ -20,5 +21,5 @@ def runLine (tables : List (List (String × Rd String))) (line : String) : Strin
       | some (out, []) => out
       | _ => "bad-op"
 
-def allTables : List (List (String × Rd String)) := [Ops.table, Ops2.table, Ops2.table2, Ops3.table, Ops4.table, Ops5.table, Ops5.table2, Ops6.table, Ops7.table, Ops7.table2, Ops8.table, Ops8.table2, Ops8.table3, Ops9.table]
+def allTables : List (List (String × Rd String)) := [Ops.table, Ops2.table, Ops2.table2, Ops3.table, Ops4.table, Ops5.table, Ops5.table2, Ops6.table, Ops7.table, Ops7.table2, Ops8.table, Ops8.table2, Ops8.table3, Ops9.table, Ops10.table]
 end G
